@@ -319,13 +319,25 @@ Definition rtol6 : Q := 1 # 1000000.
 
 Inductive case :=
   (* inputs, recorded per-group fits, recorded fullcombmask (as the harness reconstructs it), outputs *)
-| CComb (c : cin) (fits : list (option gfit)) (obs_comb : list bool) (newflux newivar : list Q).
+| CComb (c : cin) (fits : list (option gfit)) (obs_comb : list bool) (newflux newivar : list Q)
+| CStage (c : cin) (fits : list (option gfit)) (obs_comb : list bool) (pre_flux pre_ivar newflux newivar : list Q).
 
 Definition model_ok (c : cin) (fits : list (option gfit)) (obs_comb : list bool) (newflux newivar : list Q) : bool :=
   let '(mf, mi, comb) := combine1fiber_full c fits in
   all2 Bool.eqb comb obs_comb &&
   all2 (fun a b => Bool.eqb (Qeq_bool a 0) (Qeq_bool b 0) && close_rel rtol9 a b) newivar mi &&
   all2 (close_rel rtol6) newflux mf.
+
+(* stage-by-stage: the harness also records newivar as handed to smooth() (before growth) and newflux as handed to
+   aesthetics() (the spline values, before the cosmetic fill) *)
+Definition stages_ok (c : cin) (fits : list (option gfit)) (pre_flux pre_ivar : list Q) : bool :=
+  match good_index c with
+  | [] => true
+  | _ =>
+      let '(s, iv) := stages c fits in
+      all2 (fun a b => Bool.eqb (Qeq_bool a 0) (Qeq_bool b 0) && close_rel rtol9 a b) pre_ivar iv &&
+      all2 (close_rel rtol6) pre_flux (s_flux s)
+  end.
 
 Definition run_case (cs : case) : Z :=
   match cs with
@@ -334,16 +346,24 @@ Definition run_case (cs : case) : Z :=
       let s_ok := spec_basic c newflux newivar && spec_zero_pattern c obs_comb newivar
                   && spec_interp_law rtol9 c obs_comb newivar in
       ((if m_ok then 0 else 1) + (if s_ok then 0 else 2))%Z
+  | CStage c fits obs_comb pre_flux pre_ivar newflux newivar =>
+      let m_ok := model_ok c fits obs_comb newflux newivar && stages_ok c fits pre_flux pre_ivar in
+      let s_ok := spec_basic c newflux newivar && spec_zero_pattern c obs_comb newivar
+                  && spec_interp_law rtol9 c obs_comb newivar in
+      ((if m_ok then 0 else 1) + (if s_ok then 0 else 2))%Z
   end.
 Definition run_cases : list case -> list Z := map run_case.
 
 Definition diagnose (cs : case) : list bool :=
-  match cs with
-  | CComb c fits obs_comb newflux newivar =>
+  let d := fun c fits obs_comb newflux newivar =>
       let '(mf, mi, comb) := combine1fiber_full c fits in
       [all2 Bool.eqb comb obs_comb;
        all2 (fun a b => Bool.eqb (Qeq_bool a 0) (Qeq_bool b 0)) newivar mi;
        all2 (close_rel rtol9) newivar mi;
        all2 (close_rel rtol6) newflux mf;
-       spec_basic c newflux newivar; spec_zero_pattern c obs_comb newivar; spec_interp_law rtol9 c obs_comb newivar]
+       spec_basic c newflux newivar; spec_zero_pattern c obs_comb newivar; spec_interp_law rtol9 c obs_comb newivar] in
+  match cs with
+  | CComb c fits obs_comb newflux newivar => d c fits obs_comb newflux newivar
+  | CStage c fits obs_comb pre_flux pre_ivar newflux newivar =>
+      d c fits obs_comb newflux newivar ++ [stages_ok c fits pre_flux pre_ivar]
   end.
